@@ -81,14 +81,14 @@ type OPConfig struct {
 	// Strategy, if set, is used instead of a freshly built issuer strategy; AllowInsecure adds op.WithAllowInsecure
 	Strategy      func(bool) (op.IssuerFromRequest, error)
 	AllowInsecure bool
-	Router     string // "A" = op.Provider (chi router with legacy handlers), "B" = op.RegisterLegacyServer
-	Issuer     string // e.g. https://op.sim
-	IssuerMode string // "static" (default), "host", "forwarded"
-	IssuerPath string
-	Config     *op.Config
-	Caps       Caps
-	Options    []op.Option
-	Endpoints  *op.Endpoints // router B: endpoints to register (nil: a copy of the defaults)
+	Router        string // "A" = op.Provider (chi router with legacy handlers), "B" = op.RegisterLegacyServer
+	Issuer        string // e.g. https://op.sim
+	IssuerMode    string // "static" (default), "host", "forwarded"
+	IssuerPath    string
+	Config        *op.Config
+	Caps          Caps
+	Options       []op.Option
+	Endpoints     *op.Endpoints // router B: endpoints to register (nil: a copy of the defaults)
 }
 
 type OPNode struct {
